@@ -237,3 +237,27 @@ mux_set_default(struct mux *mux, struct value def)
 {
 	mux->def = def;
 }
+
+/** Called when a channel read by the select function changes its value */
+static int
+cb_depend(struct chan *chan, void *ptr)
+{
+	struct mux *mux = ptr;
+
+	dbg("mux dependency %s changed", chan->name);
+
+	return cb_select(mux->select, mux);
+}
+
+/** Selects the input again when the given channel changes. Needed when
+ * the select function reads other channels than the select one. */
+int
+mux_add_depend(struct mux *mux, struct chan *chan)
+{
+	if (bay_add_cb(mux->bay, BAY_CB_DIRTY, chan, cb_depend, mux, 1) == NULL) {
+		err("bay_add_cb failed");
+		return -1;
+	}
+
+	return 0;
+}
